@@ -83,10 +83,11 @@ Definition block (c : cfg) (g : stage) (d : disk) : stage * disk * list netobs :
       match u with
       | UTry => (GUpd ch r dl log UCfg, d, [])       (* update mutex taken; no shared state touched *)
       | UCfg => (GUpd ch r dl log UCopy, d, [])
-      | UCopy => let '(d', evs) := cs_copy_events c d in (GUpd ch r dl log (UClear evs), d', [])
+      | UCopy => let '(d', evs) := cs_copy_events c d in
+                 (GUpd ch r dl log (UClear evs), d', map NEvent evs)   (* queued events go out now *)
       | UClear evs =>
           let d' := cs_clear_events c d in
-          let out := map NEvent evs ++ [NCheck (mk_request c ch)] in
+          let out := [NCheck (mk_request c ch)] in
           (match r with
            | None => GDone (RStatus (status_code UError))
            | Some rs => match r_rb rs with
@@ -639,6 +640,295 @@ Proof.
   destruct (thread_step_b_disk c i t d busy) as [E|E];
     destruct (thread_step_b c i t d busy) as [[[t' d'] l] busy']; cbn in E; subst d'; apply IH; auto.
   exact (proj1 H2).
+Qed.
+
+
+(* ---------- C12: lock / network actions of the calling thread ---------- *)
+(* events reported by the calling thread itself (queued failures); download and install-success
+   events are reported by helper threads spawned for that purpose *)
+Definition own_net (n : netobs) : bool :=
+  match n with
+  | NEvent e => match e_kind e with EvInstallFailure => true | _ => false end
+  | _ => true
+  end.
+
+Definition block_actions (c : cfg) (g : stage) (d : disk) : list action :=
+  let '(g', _, l) := block c g d in
+  match g with
+  | GDone _ => []
+  | GUpd _ _ _ _ UTry => [TryUpd true]
+  | _ => AcqCfg :: RelCfg :: map Net (filter own_net l)
+  end ++ (if in_update g && negb (in_update g') then [RelUpd] else []).
+
+Fixpoint stage_actions (fuel : nat) (c : cfg) (g : stage) (d : disk) : list action :=
+  match fuel with
+  | O => []
+  | S f => match g with
+           | GDone _ => []
+           | _ => let '(g', d', _) := block c g d in block_actions c g d ++ stage_actions f c g' d'
+           end
+  end.
+
+(* depth of the config mutex and whether the update mutex is held, along a trace *)
+Fixpoint wf_go (depth : nat) (upd : bool) (l : list action) : option (nat * bool) :=
+  match l with
+  | [] => Some (depth, upd)
+  | a :: r =>
+      match a with
+      | AcqCfg => if Nat.eqb depth 0 then wf_go 1 upd r else None          (* no re-entry *)
+      | RelCfg => if Nat.eqb depth 1 then wf_go 0 upd r else None
+      | Net _ => if Nat.eqb depth 0 then wf_go depth upd r else None        (* no network under the lock *)
+      | TryUpd ok => if Nat.eqb depth 0 && negb upd then wf_go depth ok r else None  (* never under cfg *)
+      | RelUpd => if Nat.eqb depth 0 && upd then wf_go depth false r else None
+      | Spawn => wf_go depth upd r
+      end
+  end.
+
+Lemma wf_go_app d u l1 l2 :
+  wf_go d u (l1 ++ l2) = match wf_go d u l1 with Some (d', u') => wf_go d' u' l2 | None => None end.
+Proof.
+  revert d u. induction l1 as [|a l1 IH]; intros d u; cbn [app wf_go]; auto.
+  destruct a; repeat match goal with |- context [if ?x then _ else _] => destruct x end; auto.
+Qed.
+
+Lemma wf_go_nets u l : wf_go 0 u (map Net l) = Some (0%nat, u).
+Proof. induction l as [|n l IH]; cbn; auto. Qed.
+
+Definition rank (g : stage) : nat :=
+  match g with
+  | GDone _ => 0
+  | GOne _ => 1
+  | GUpd _ _ _ _ u => match u with
+                      | UTry => 9 | UCfg => 8 | UCopy => 7 | UClear _ => 6 | URb _ _ => 5
+                      | UBad _ _ => 4 | UNxt _ _ => 3 | UIns _ _ => 2
+                      end
+  | GChk _ _ cs => match cs with CCfg => 5 | CRb _ _ => 4 | CBad _ => 3 | CNxt _ => 2 end
+  end%nat.
+
+Lemma after_rb_u_rank ch r dl log rs : (rank (after_rb_u ch r dl log rs) <= 4)%nat.
+Proof. unfold after_rb_u. destruct (negb (r_avail rs)); cbn; [lia|]. destruct (r_patch rs); cbn; lia. Qed.
+Lemma after_rb_c_rank ch r rs : (rank (after_rb_c ch r rs) <= 3)%nat.
+Proof. unfold after_rb_c. destruct (r_patch rs); cbn; lia. Qed.
+
+Local Opaque Model.cs_next Model.cs_start Model.cs_success Model.cs_failure Model.cs_init_recover
+      Model.cs_rollback Model.cs_install Model.cs_copy_events Model.cs_is_bad
+      Model.cs_clear_events Model.inflate Model.hash_ok Model.cs_current Model.mk_request Model.mk_event.
+
+(* every block strictly advances its call: calls terminate, nothing ever waits while holding a lock *)
+Lemma block_rank c g d : g <> GDone (match g with GDone x => x | _ => RUnit end) ->
+  (rank (fst (fst (block c g d))) < rank g)%nat.
+Proof.
+  intros Hg. destruct g as [x|o|ch r dl log u|ch r cs]; [exfalso; apply Hg; reflexivity| | |].
+  - destruct o; cbn [block];
+      repeat match goal with |- context [let '(_, _) := ?x in _] => destruct x end; cbn; lia.
+  - destruct u; cbn [block];
+      repeat match goal with
+             | |- context [let '(_, _) := ?x in _] => destruct x
+             end; cbn [fst snd rank]; try lia.
+    + destruct r as [rs|]; cbn; [|lia]. destruct (r_rb rs); cbn; [lia|].
+      pose proof (after_rb_u_rank ch (Some rs) dl log rs). lia.
+    + pose proof (after_rb_u_rank ch r dl log rs). lia.
+    + destruct b; cbn; lia.
+    + destruct (match o with Some n => N.eqb n (p_num p) | None => false end); cbn; [lia|].
+      destruct dl as [bdl|]; cbn; [|lia]. destruct (inflate bdl); cbn; [|lia].
+      destruct (hash_ok _ _); cbn; lia.
+  - destruct cs; cbn [block];
+      repeat match goal with |- context [let '(_, _) := ?x in _] => destruct x end; cbn [fst snd rank]; try lia.
+    + destruct r as [rs|]; cbn; [|lia]. destruct (r_rb rs); cbn; [lia|].
+      pose proof (after_rb_c_rank ch (Some rs) rs). lia.
+    + pose proof (after_rb_c_rank ch r rs). lia.
+    + destruct b; cbn; lia.
+Qed.
+
+Lemma block_in_update_cases c g d :
+  let g' := fst (fst (block c g d)) in
+  (in_update g' = true -> in_update g = true \/ is_try g = true) /\
+  (is_try g' = false \/ g = g').
+Proof.
+  destruct g as [x|o|ch r dl log u|ch r cs]; cbn [block].
+  - cbn. split; [discriminate|right; reflexivity].
+  - split.
+    + destruct o; cbn;
+        repeat match goal with |- context [let '(_, _) := ?x in _] => destruct x end; cbn; discriminate.
+    + left. destruct o; cbn;
+        repeat match goal with |- context [let '(_, _) := ?x in _] => destruct x end; reflexivity.
+  - split; [intros _; destruct u; cbn; auto|].
+    left. destruct u; cbn [block];
+      repeat match goal with |- context [let '(_, _) := ?x in _] => destruct x end; cbn [fst]; try reflexivity.
+    + destruct r as [rs|]; [|reflexivity]. destruct (r_rb rs); [reflexivity|].
+      unfold after_rb_u. destruct (negb _); [reflexivity|]. destruct (r_patch rs); reflexivity.
+    + unfold after_rb_u. destruct (negb _); [reflexivity|]. destruct (r_patch rs); reflexivity.
+    + destruct b; reflexivity.
+    + destruct (match o with Some n => N.eqb n (p_num p) | None => false end); [reflexivity|].
+      destruct dl as [bdl|]; [|reflexivity]. destruct (inflate bdl); [|reflexivity].
+      destruct (hash_ok _ _); reflexivity.
+  - split.
+    + destruct cs; cbn [block];
+        repeat match goal with |- context [let '(_, _) := ?x in _] => destruct x end; cbn [fst]; try discriminate.
+      * destruct r as [rs|]; [|discriminate]. destruct (r_rb rs); [discriminate|].
+        unfold after_rb_c. destruct (r_patch rs); discriminate.
+      * unfold after_rb_c. destruct (r_patch rs); discriminate.
+      * destruct b; discriminate.
+    + left. destruct cs; cbn [block];
+        repeat match goal with |- context [let '(_, _) := ?x in _] => destruct x end; cbn [fst]; try reflexivity.
+      * destruct r as [rs|]; [|reflexivity]. destruct (r_rb rs); [reflexivity|].
+        unfold after_rb_c. destruct (r_patch rs); reflexivity.
+      * unfold after_rb_c. destruct (r_patch rs); reflexivity.
+      * destruct b; reflexivity.
+Qed.
+
+(* one block, started with the config mutex free and the update mutex held iff inside an update,
+   ends the same way: the lock is taken once, released, and only then network callbacks run *)
+Lemma block_actions_wf c g d :
+  (forall x, g <> GDone x) ->
+  wf_go 0 (in_update g) (block_actions c g d) = Some (0%nat, in_update (fst (fst (block c g d)))).
+Proof.
+  intros Hg. unfold block_actions.
+  pose proof (block_in_update_cases c g d) as [Hin Htry].
+  destruct (block c g d) as [[g' d'] l] eqn:E. cbn [fst] in *.
+  destruct g as [x|o|ch r dl log u|ch r cs]; [exfalso; eapply Hg; reflexivity| | |].
+  - (* single-block call *)
+    assert (in_update g' = false).
+    { destruct (in_update g') eqn:Eg; auto. destruct (Hin eq_refl); discriminate. }
+    cbn [in_update andb app]. rewrite H. cbn [wf_go Nat.eqb]. rewrite app_nil_r. apply wf_go_nets.
+  - destruct u.
+    + (* try_lock *)
+      cbn [block] in E. injection E as <- _ _. cbn. reflexivity.
+    + cbn [in_update]. rewrite wf_go_app. cbn [wf_go Nat.eqb]. rewrite wf_go_nets.
+      destruct (in_update g'); cbn; reflexivity.
+    + cbn [in_update]. rewrite wf_go_app. cbn [wf_go Nat.eqb]. rewrite wf_go_nets.
+      destruct (in_update g'); cbn; reflexivity.
+    + cbn [in_update]. rewrite wf_go_app. cbn [wf_go Nat.eqb]. rewrite wf_go_nets.
+      destruct (in_update g'); cbn; reflexivity.
+    + cbn [in_update]. rewrite wf_go_app. cbn [wf_go Nat.eqb]. rewrite wf_go_nets.
+      destruct (in_update g'); cbn; reflexivity.
+    + cbn [in_update]. rewrite wf_go_app. cbn [wf_go Nat.eqb]. rewrite wf_go_nets.
+      destruct (in_update g'); cbn; reflexivity.
+    + cbn [in_update]. rewrite wf_go_app. cbn [wf_go Nat.eqb]. rewrite wf_go_nets.
+      destruct (in_update g'); cbn; reflexivity.
+    + cbn [in_update]. rewrite wf_go_app. cbn [wf_go Nat.eqb]. rewrite wf_go_nets.
+      destruct (in_update g'); cbn; reflexivity.
+  - assert (in_update g' = false).
+    { destruct (in_update g') eqn:Eg; auto. destruct (Hin eq_refl); discriminate. }
+    cbn [in_update andb app]. rewrite H. cbn [wf_go Nat.eqb]. rewrite app_nil_r. apply wf_go_nets.
+Qed.
+
+Theorem stage_actions_wf c : forall fuel g d,
+  (rank g <= fuel)%nat ->
+  wf_go 0 (in_update g) (stage_actions fuel c g d) = Some (0%nat, false).
+Proof.
+  induction fuel as [|f IH]; intros g d Hr.
+  - destruct g as [x|o|? ? ? ? u|? ? cs]; [reflexivity | cbn in Hr; lia | destruct u; cbn in Hr; lia | destruct cs; cbn in Hr; lia].
+  - destruct g as [x|o|ch r dl log u|ch r cs]; [reflexivity| | |].
+    + cbn [stage_actions].
+      pose proof (block_actions_wf c (GOne o) d) as Hb.
+      pose proof (block_rank c (GOne o) d) as Hk.
+      destruct (block c (GOne o) d) as [[g' d'] l]. cbn [fst] in *.
+      rewrite wf_go_app, Hb by discriminate. apply IH.
+      assert (rank g' < rank (GOne o))%nat by (apply Hk; discriminate). lia.
+    + cbn [stage_actions].
+      pose proof (block_actions_wf c (GUpd ch r dl log u) d) as Hb.
+      pose proof (block_rank c (GUpd ch r dl log u) d) as Hk.
+      destruct (block c (GUpd ch r dl log u) d) as [[g' d'] l]. cbn [fst] in *.
+      rewrite wf_go_app, Hb by discriminate. apply IH.
+      assert (rank g' < rank (GUpd ch r dl log u))%nat by (apply Hk; discriminate). lia.
+    + cbn [stage_actions].
+      pose proof (block_actions_wf c (GChk ch r cs) d) as Hb.
+      pose proof (block_rank c (GChk ch r cs) d) as Hk.
+      destruct (block c (GChk ch r cs) d) as [[g' d'] l]. cbn [fst] in *.
+      rewrite wf_go_app, Hb by discriminate. apply IH.
+      assert (rank g' < rank (GChk ch r cs))%nat by (apply Hk; discriminate). lia.
+Qed.
+
+(* the whole call, as the engine sees it: C12's three structural statements hold for every call
+   from every state with any server behaviour *)
+Definition call_actions (c : cfg) (o : op) (d : disk) : list action :=
+  stage_actions 9 c (stage_of o) d.
+
+Theorem call_actions_wf c o d : wf_go 0 false (call_actions c o d) = Some (0%nat, false).
+Proof.
+  unfold call_actions.
+  assert (E : in_update (stage_of o) = false) by (destruct o; reflexivity).
+  pose proof (stage_actions_wf c 9 (stage_of o) d) as H. rewrite E in H. apply H.
+  destruct o; cbn; lia.
+Qed.
+
+(* stepping a thread that is not finished strictly decreases its remaining work: no call can wait
+   for ever on a lock, and no cycle of waiting threads exists (a thread holds the config mutex only
+   inside one block, and never asks for another lock there) *)
+Definition work (t : thread) : nat := rank (t_stage t) + 10 * List.length (t_todo t).
+
+Lemma stage_of_rank o : (1 <= rank (stage_of o) <= 9)%nat.
+Proof. destruct o; cbn; lia. Qed.
+
+Theorem step_decreases_work c i t d busy :
+  thread_done t = false ->
+  (work (fst (fst (fst (thread_step_b c i t d busy)))) < work t)%nat.
+Proof.
+  intros Hd. unfold thread_step_b, work.
+  assert (Hcase : forall t', (t' = refuse_update t /\ is_try (t_stage t) = true) \/ t' = fst (fst (thread_step c t d)) ->
+                  (rank (t_stage t') + 10 * List.length (t_todo t') < rank (t_stage t) + 10 * List.length (t_todo t))%nat).
+  { intros t' [ [-> Ht] | -> ].
+    - unfold refuse_update. destruct (t_stage t) as [| |? ? ? ? u|]; try discriminate. destruct u; try discriminate.
+      destruct (t_todo t) as [|o rest]; cbn [t_stage t_todo rank List.length]; [lia|].
+      pose proof (stage_of_rank o). lia.
+    - unfold thread_step.
+      pose proof (block_rank c (t_stage t) d) as Hk.
+      unfold thread_done in Hd.
+      destruct (t_stage t) as [x|o|ch r dl log u|ch r cs] eqn:Es;
+        [|destruct (block c (GOne o) d) as [[g d'] l]
+         |destruct (block c (GUpd ch r dl log u) d) as [[g d'] l]
+         |destruct (block c (GChk ch r cs) d) as [[g d'] l]]; cbn [fst] in *.
+      + destruct (t_todo t) as [|o rest] eqn:Et; [discriminate|].
+        cbn [block fst t_stage t_todo rank List.length]. pose proof (stage_of_rank o). lia.
+      + assert (rank g < 1)%nat by (apply Hk; discriminate).
+        destruct g as [| |? ? ? ? u0|? ? c0]; cbn in H; try lia; try (destruct u0; lia); try (destruct c0; lia).
+        destruct (t_todo t) as [|o2 rest]; cbn [fst t_stage t_todo rank List.length]; [lia|].
+        pose proof (stage_of_rank o2). lia.
+      + assert (Hlt : (rank g < rank (GUpd ch r dl log u))%nat) by (apply Hk; discriminate).
+        destruct g; cbn [fst t_stage t_todo]; try lia.
+        destruct (t_todo t) as [|o2 rest]; cbn [fst t_stage t_todo rank List.length] in *; [destruct u; cbn; lia|].
+        pose proof (stage_of_rank o2). destruct u; cbn; lia.
+      + assert (Hlt : (rank g < rank (GChk ch r cs))%nat) by (apply Hk; discriminate).
+        destruct g; cbn [fst t_stage t_todo]; try lia.
+        destruct (t_todo t) as [|o2 rest]; cbn [fst t_stage t_todo rank List.length] in *; [destruct cs; cbn; lia|].
+        pose proof (stage_of_rank o2). destruct cs; cbn; lia. }
+  destruct (is_try (t_stage t)) eqn:Et.
+  - destruct busy.
+    + cbn [fst]. apply Hcase. left. auto.
+    + destruct (thread_step c t d) as [[t' d'] l] eqn:E. cbn [fst]. apply Hcase. right. reflexivity.
+  - destruct (thread_step c t d) as [[t' d'] l] eqn:E. cbn [fst]. apply Hcase. right. reflexivity.
+Qed.
+
+
+(* what the calling thread does for any call in any world (initialised or not) *)
+Definition world_actions (w : world) (o : op) : list action :=
+  match o with
+  | ODamage _ | OKill => []
+  | OInit relv y pk =>
+      match cfg_of relv y with
+      | None => []
+      | Some _ => if negb pk then []
+                  else match w_cfg w with
+                       | Some _ => [AcqCfg; RelCfg]
+                       | None => [AcqCfg; RelCfg; AcqCfg; RelCfg]
+                       end
+      end
+  | _ => match w_cfg w with
+         | Some c => call_actions c o (w_disk w)
+         | None => match o with
+                   | OUpdate _ _ _ => [TryUpd true; AcqCfg; RelCfg; RelUpd]
+                   | _ => [AcqCfg; RelCfg]
+                   end
+         end
+  end.
+
+Theorem world_actions_wf w o : wf_go 0 false (world_actions w o) = Some (0%nat, false).
+Proof.
+  unfold world_actions. destruct o; try reflexivity;
+    try (destruct (w_cfg w); [apply call_actions_wf|reflexivity]).
+  destruct (cfg_of relv y); [|reflexivity]. destruct paths_ok; [|reflexivity].
+  destruct (w_cfg w); reflexivity.
 Qed.
 
 End Blocks.
